@@ -67,7 +67,7 @@ def _scenario(draw):
     n_more = draw(st.integers(1, 3))
     for _ in range(n_more):
         prev = dict(reqs[draw(st.integers(0, len(reqs) - 1))]["values"])
-        op = draw(st.sampled_from(["same", "same", "edit-atom", "edit-atom", "toggle-absent", "split-line", "merge-lines", "ows", "case", "fresh", "other-header"]))
+        op = draw(st.sampled_from(["same", "same", "edit-atom", "edit-atom", "toggle-absent", "split-line", "merge-lines", "ows", "case", "fresh", "other-header", "escape-spelling", "escape-spelling"]))
         target = draw(st.sampled_from(nominated)) if nominated else draw(st.sampled_from(NAMES))
         cur = prev.get(target)
         if op == "edit-atom":
@@ -100,6 +100,22 @@ def _scenario(draw):
             prev[target] = [draw(st.sampled_from([" ", "\t", "  "])) + l + draw(st.sampled_from(["", " ", "\t "])) for l in cur]
         elif op == "case" and cur:
             prev[target] = ["".join(c.swapcase() if c.isascii() else c for c in l) for l in cur]
+        elif op == "escape-spelling":
+            # a different value that differs only in how one byte is spelled: literally or as %XX (collision hunting against
+            # whatever escaping the variant key uses); an empty value gets a literal "%20" vs " " pair
+            lines = list(cur) if cur else [" x"]
+            i = draw(st.integers(0, len(lines) - 1))
+            l = lines[i] or " x"
+            k = draw(st.integers(0, len(l) - 1))
+            if l[k] == "%" and len(l) >= k + 3 and all(c in "0123456789abcdefABCDEF" for c in l[k + 1:k + 3]):
+                l = l[:k] + chr(int(l[k + 1:k + 3], 16)) + l[k + 3:] if int(l[k + 1:k + 3], 16) >= 0x20 else l[:k] + "%25" + l[k + 1:]
+            else:
+                l = l[:k] + "%%%02X" % ord(l[k]) + l[k + 1:] if ord(l[k]) < 0x80 else l + "%20"
+            if cur is None or not cur:
+                prev[target] = [" x"]
+                reqs.append({"op": "escape-spelling-base", "values": dict(prev)})
+            lines[i] = l
+            prev[target] = lines
         elif op == "fresh":
             prev = {n: draw(value_for(n)) for n in NAMES}
         elif op == "other-header":
